@@ -70,7 +70,7 @@ def c_case(k):
 
 PRE = """From Coq Require Import ZArith NArith List Bool.
 Import ListNotations.
-Require Import UV.C19.Model.
+Require Import UV.C19.Model UV.C19.SymFile.
 """
 
 
@@ -363,8 +363,10 @@ class Impl:
                     res["hook_parent_nonzero"] = True
         sp = os.path.join(d, "python.fake.sym")
         res["symfile_ok"] = False
+        res["symbytes"] = b""
         if os.path.exists(sp):
-            lines = open(sp, "rb").read().decode("latin-1").split("\n")
+            res["symbytes"] = open(sp, "rb").read()
+            lines = res["symbytes"].decode("latin-1").split("\n")
             body = [l for l in lines if l and not l.startswith("#")]
             ok = len(body) >= 1 and body[-1].split(" ", 2)[2] == "__sym_end"
             expect = 1
@@ -394,7 +396,11 @@ def evaluate(ctx, cases, name="cases"):
     # ... over a function table whose names determine the symbols (hypotheses of C19_trace_python_spec)
     defs += ("Definition wf (k : case) : bool := forallb (fun p => match fst p with Return => true | _ => false end) (k_raw k)"
              " && consistentb (option_map main_dir_of (k_pymain k)) (k_funcs k).\n")
+    # the bytes of python.fake.sym must be the rendering of the table (C19_symfile_roundtrip then gives the names
+    # and addresses every reader gets back; the Python-side parse of the file is not trusted)
+    defs += "Definition files : list (list N) := [\n%s\n].\n" % ";\n".join(cs(k.get("symbytes", b"")) for k in cases)
     res = coq.run_cases(ctx, name, PRE, defs, [
+        ("symfile", "bad_indices (fun p => bytes_eqb (render_symtab (k_symtab (fst p))) (snd p)) (combine cases files) 0"),
         ("mismatch", "bad_indices agrees cases 0"),
         ("violations", "bad_indices (fun k => negb (wf k) || ok_case k) cases 0"),
         ("unbalanced", "bad_indices (fun k => negb (wf k) || ok_balanced k) cases 0"),
@@ -409,13 +415,14 @@ def scripted(ctx, objdir):
     rng = ctx.rng
     impl = Impl(ctx, objdir)
     cases = [dict(w) for w in WITNESSES]
-    n = ctx.n(200, 1700)
+    n = ctx.n(200, 1500)
     for i in range(n):
         cases.append(gen_case(rng))
     for k in cases:
         r = impl.run(k)
         k.update({"hooks": r["hooks"], "symtab": r["symtab"], "rfuncs": r["rfuncs"], "rc": r["rc"], "err": r["err"],
-                  "symfile_ok": r.get("symfile_ok", False), "hook_parent_nonzero": r["hook_parent_nonzero"]})
+                  "symfile_ok": r.get("symfile_ok", False), "hook_parent_nonzero": r["hook_parent_nonzero"],
+                  "symbytes": r.get("symbytes", b"")})
     return cases
 
 
@@ -436,6 +443,12 @@ def scripted_verdict(ctx, cases, res):
                           {"mode": "scripted", "case": case_json(k)}, True)
             return
     viol = sorted(set(res["violations"]) | set(res["unbalanced"]))
+    if res.get("symfile"):
+        k = cases[res["symfile"][0]]
+        ctx.violation("python.fake.sym written at exit is not byte for byte the rendering of the symbol table "
+                      "(%d cases): header of 48 bytes, `%%016x %%c %%s` entries, __sym_end" % len(res["symfile"]),
+                      {"mode": "scripted", "case": case_json(k), "impl_symtab": k["symtab"],
+                       "file": k.get("symbytes", b"").decode("latin-1")}, True)
     for i in viol[:3]:
         k = cases[i]
         what = "unbalanced hook calls" if i in res["unbalanced"] else "trace is not the selected call forest"
@@ -467,10 +480,11 @@ def common_meta(ctx):
     ctx.trusted = [
         "Coq 8.16.1 kernel incl. vm_compute; no axioms (Print Assumptions: closed under the global context)",
         "hand-written model coq/theories/C19/Model.v of python/trace-python.c (init_filters, match_filter [ERE subset "
-        "^ $ . literals], apply_filters, can_trace, event dispatch, get_python_funcname/get_c_funcname, code_tree/symtab) "
+        "^ $ . literals; glob subset * ? literals; simple], apply_filters, can_trace, event dispatch, "
+        "get_python_funcname/get_c_funcname, code_tree/symtab) and coq/theories/C19/SymFile.v (write_symtab, line reader) "
         "incl. the call-depth test (depth_guard)",
         "harness/py/c19_driver.py (synthetic frame objects, real builtin objects), harness/c/c19_fakemcount.c (logs hook calls), "
-        "props/c19.py (parsers of python.fake.sym and of `uftrace replay` output, program generator)",
+        "props/c19.py (parser of `uftrace replay` output, program generator; python.fake.sym is compared byte for byte in Coq)",
         "CPython 3.11 profile-event discipline (call/return, c_call/c_return|c_exception) = the forests of the theorems",
     ]
     ctx.assume = [
@@ -479,7 +493,7 @@ def common_meta(ctx):
         "every c_call; returns of frames entered before sys.setprofile() (runpy, when the script ends by an exception) may follow",
         "single thread (libcall_count and filter_state are process-global by design)",
         "counters do not overflow int (fewer than 2^31 nested calls)",
-        "filter patterns within the modelled ERE subset (^, $, '.', literals) or plain names; UFTRACE_PATTERN unset",
+        "filter patterns within the modelled subsets: regex ^ $ . literals, glob * ? literals (no brackets, no backslash)",
         "function names determine the library flag (a name is created once; later functions with the same name share it)",
     ]
 
@@ -517,7 +531,8 @@ def replay(ctx, obj):
     k["tags"] = []
     r = Impl(ctx, objdir).run(k)
     k.update({"hooks": r["hooks"], "symtab": r["symtab"], "rfuncs": r["rfuncs"], "rc": r["rc"], "err": r["err"],
-              "symfile_ok": r.get("symfile_ok", False), "hook_parent_nonzero": r["hook_parent_nonzero"]})
+              "symfile_ok": r.get("symfile_ok", False), "hook_parent_nonzero": r["hook_parent_nonzero"],
+              "symbytes": r.get("symbytes", b"")})
     ctx.log("replayed: hooks", k["hooks"], "symtab", k["symtab"])
     ctx.case(key="replay", sample={"hooks": k["hooks"]})
     res = evaluate(ctx, [k], name="replay")
